@@ -129,7 +129,7 @@ def idx_lines(f: Field, var="i", inrange=True):
 
 
 def call_get(f: Field, obj, i):
-    return f"{obj}.{f.name}({i})"
+    return f"{obj}.{'r#' if f.raw_ident else ''}{f.name}({i})"
 
 
 def call_with(f: Field, obj, i, v):
